@@ -7,9 +7,10 @@ pub mod typed;
 pub mod c01;
 pub mod c02;
 pub mod c03;
+pub mod c06;
 pub mod c13;
 pub mod c19;
 
 pub fn registry() -> Vec<runner::Property> {
-    vec![c01::property(), c02::property(), c03::property(), c13::property(), c19::property()]
+    vec![c01::property(), c02::property(), c03::property(), c06::property(), c13::property(), c19::property()]
 }
